@@ -323,6 +323,10 @@ impl GFpEchelonBuilder {
             for j in 1..N {
                 mw += ws[j][i] as u128 * ms[j] as u128;
             }
+            // The sum of N products can exceed p*2^64 (the domain of mg_redc)
+            // when p is close to 2^62: it is less than 2*p*2^64.
+            let pr = (p as u128) << 64;
+            let mw = if mw >= pr { mw - pr } else { mw };
             let mw = mg_redc(self.p, self.pinv, mw);
             if v[i] >= mw {
                 v[i] -= mw;
